@@ -1,18 +1,43 @@
+"""Stand-in for twisted.internet.protocol (only what yabgp uses)."""
+
+
 class Protocol(object):
     transport = None
     factory = None
     connected = 0
+
     def makeConnection(self, transport):
         self.connected = 1
         self.transport = transport
         self.connectionMade()
-    def connectionMade(self): pass
-    def dataReceived(self, data): pass
-    def connectionLost(self, reason): pass
+
+    def connectionMade(self):
+        pass
+
+    def dataReceived(self, data):
+        pass
+
+    def connectionLost(self, reason):
+        pass
+
+
 class Factory(object):
     protocol = None
+
     def buildProtocol(self, addr):
         p = self.protocol()
         p.factory = self
         return p
-class ClientFactory(Factory): pass
+
+    def startedConnecting(self, connector):
+        pass
+
+    def clientConnectionFailed(self, connector, reason):
+        pass
+
+    def clientConnectionLost(self, connector, reason):
+        pass
+
+
+class ClientFactory(Factory):
+    pass
